@@ -209,7 +209,11 @@ def fold_order(ctx, fn, start):
     fmts = []
     ctx.ob("R03.1", "Use.property_by_values[x/y as trailing translate]", ok, "with inherited transform: %r; without: %r" % (results.get(True), results.get(False)), up.lineno,
            "use x/y is an additional translate(x, y) appended to (applied before) the use's transform")
-    ok = any("values[SVG_ATTR_TRANSFORM] = s.values[SVG_ATTR_TRANSFORM]" == ast.unparse(s) for s in stmts_in(start))
+    from ..flow import Aliases as _Aliases
+
+    al_ = _Aliases(fn)
+    ok = any(isinstance(s, ast.Assign) and len(s.targets) == 1 and al_.canon(s.targets[0]) == "values[SVG_ATTR_TRANSFORM]" and al_.canon(s.value) == "s.values[SVG_ATTR_TRANSFORM]"
+             for s in stmts_in(start))
     ctx.ob("R03.1", "SVG.parse[use transform reaches the referenced content]", ok, "", fn.lineno, "the expanded reference inherits the use's transform including the x/y translate")
 
 
